@@ -215,10 +215,24 @@ def sany(module):
     return ok, p.stdout
 
 
-def judge(module, records, *, name='judge', env=None, timeout=600):
+def judge(module, records, *, name='judge', env=None, timeout=600, chunk=2500):
     """Evaluate the TLA+ property operators of spec/<module>.tla on real records.
     `records` is a list of JSON-able dicts, each with a string field "id".
-    Returns (fails, result) where fails = list of (record id, clause name)."""
+    Returns (fails, result) where fails = list of (record id, clause name).
+    Large record sets are judged in chunks (one TLC run each): JsonDeserialize of one huge file is slow and memory hungry."""
+    fails, last, distinct, generated = [], None, 0, 0
+    for k in range(0, max(1, len(records)), chunk):
+        part = records[k:k + chunk]
+        f1, r1 = _judge_one(module, part, name=name, env=env, timeout=timeout)
+        fails += f1
+        distinct += r1.distinct
+        generated += r1.generated
+        last = r1
+    last.distinct, last.generated = distinct, generated
+    return fails, last
+
+
+def _judge_one(module, records, *, name, env, timeout):
     d = sub_scratch('judge-' + name + '-' + str(time.time_ns()))
     rec = os.path.join(d, 'records.json')
     with open(rec, 'w') as f:
